@@ -12,8 +12,17 @@ CLAIMS = {
         note="Environment stubs (getln as request oracle, unlink, fmtqfn, scan_ulong through its contract) are trusted; "
              "message numbers are abstract values (scan_ulong wrap-around >= 2^64 is not distinguished).",
         design_ref="DESIGN.md section 5 C18"),
+    "C06": dict(
+        text="Proof (CBMC loop contracts on the unmodified qmail-remote.c blast()): for every message byte stream of any "
+             "length, read errors and EOF at any point, the bytes handed to the SMTP connection contain no bare LF, every "
+             "line beginning with a dot is dot-stuffed, the line consisting of a single dot occurs exactly once, at the "
+             "very end, after the whole message was read; for messages without CR a reference receiver decodes the "
+             "output byte for byte to the queued message; a message whose last line is unterminated is refused.",
+        note="substdio_get/substdio_put are replaced by the monitors (one byte per read, so every chunking is covered); "
+             "safewrite is assumed not to return on failure (it exits through dropped()).",
+        design_ref="DESIGN.md section 5 C06"),
 }
 
 NOT_APPLICABLE = {p: PENDING for p in
-                  ["C01", "C02", "C03", "C04", "C05", "C06", "C07", "C08", "C09", "C10", "C11", "C12", "C13", "C14", "C15",
+                  ["C01", "C02", "C03", "C04", "C05", "C07", "C08", "C09", "C10", "C11", "C12", "C13", "C14", "C15",
                    "C16", "C17", "C19", "C20"]}
